@@ -57,4 +57,42 @@ CHECKS = {
                 'exactly one id.',
         'note': _TB + '; for instructions a suite section takes over from a phase, the phase page counts as the help entry',
     },
+    'C07': {
+        'category': 'exploration',
+        'technique': 'runtime monitoring: generated documents with known structure through the real parser API and CLI; class invariant (M6) on ParseSource; execution-log comparison over all permutations of phase blocks',
+        'text': 'All documents of <=3 lines over 9 line kinds plus seeded documents (inclusion depth <=3, multi-line instructions, descriptions, '
+                'escaped act lines) are parsed by new_parser(...).apply and compared element by element (phase, first line, source lines, '
+                'file, including chain, description) with their generating structure; documents are executed in every admissible '
+                'permutation of their phase blocks and the execution log compared with the reference order; planted defects must be '
+                'reported with file, line, text and chain; cycles/unknown phases must be errors. ParseSource invariant checked after '
+                'every mutation of every ParseSource object.',
+        'note': _TB + '; only complete instructions are generated (an incomplete one may absorb following lines: outside the quantifier)',
+    },
+    'C12': {
+        'category': 'exploration',
+        'technique': 'runtime monitoring: probe-rendered paths vs a relativity-root table; audit-hook and snapshot monitors on the home directories',
+        'text': 'Every relativity x suffix shape x chains of path definitions (depth<=2 exhaustively, 1566 chains) is rendered through a probe at '
+                'use points separated by cd instructions and compared with root+suffix (cd at time of use); every creating instruction form x '
+                'relativity/symbol chain is run and must be rejected/accepted as documented while snapshots and audit events show the home '
+                'directories untouched.',
+        'note': _TB + '; `..`/symlinks not generated; three open known findings about absolute path parts (doc/BUGS.rst)',
+    },
+    'C17': {
+        'category': 'exploration',
+        'technique': 'runtime monitoring: probe records and M2 timeout records of observer cases after setter cases in all permutations; three-way agreement of ways to run a case',
+        'text': 'Lists of <=4 setter/observer cases are run alone and as a suite in all permutations; observers must see the documented '
+                'defaults and the same records in every order; each case is run inside the suite, with --suite and beside exactly.suite and '
+                'must produce the same identifier and probe sequence, which must also equal the model of suite contents (suite first, '
+                'cleanup last, direct cases only) for all 128 subsets of suite contents.',
+        'note': _TB,
+    },
+    'C19': {
+        'category': 'fault_enumeration',
+        'technique': 'runtime monitoring: process-boundary monitor (timeout handed to the OS at every subprocess.call) + real kills with pid liveness and marker-file observations',
+        'text': 'A catalogue of 57 places where a process can be started x program form x timeout history: every subprocess.call must carry '
+                'the timeout in force at that instruction (no waiting, exhaustive). Real kills: timeout=1 with a child that would sleep '
+                '30 s must give HARD_ERROR in the phase of use, cleanup marker present, sandbox removed, child pid dead and its finished '
+                'marker absent; early-exiting children must not be reported; decided on logical facts, never on wall-clock.',
+        'note': _TB + '; only the process Exactly itself starts; the preprocessor (no timeout) is outside the quantifier',
+    },
 }
